@@ -116,7 +116,9 @@ class MicroDVDWriter(BaseWriter):
 
     def _recreate_line(self, sub, line):
         if line.type_ == CaptionNode.TEXT:
-            return sub + line.content
+            # a line boundary inside the text (\n, \r, \x0b, \x85, U+2028 ...)
+            # would cut the cue's line in the file: write it as a line break
+            return sub + '|'.join(line.content.splitlines())
         elif line.type_ == CaptionNode.BREAK:
             return sub + '|'
         else:
